@@ -87,6 +87,11 @@ pub(crate) fn now_millis_str() -> String {
     }
 }
 
+/// Make every later `now_millis_str` result greater than `at_least`.
+pub(crate) fn bump_last_millis(at_least: u64) {
+    LAST_MILLIS.fetch_max(at_least, Ordering::AcqRel);
+}
+
 pub(crate) fn checksum64(data: &[u8]) -> u64 {
     // FNV-1a 64-bit checksum
     const FNV_OFFSET: u64 = 0xcbf29ce484222325;
